@@ -177,7 +177,7 @@ def geom_access(repo, res):
             nverts = len(GEOM[c])
             scalar = Node("Element", reference_value_size=1, block_size=1, dim=nverts, entity_dofs=[[[v] for v in range(nverts)]] + [[[] for _ in d] for d in topology(c)[1:]],
                           reference_topology=topology(c))
-            cel = Node("_BlockedElement", reference_value_shape=(3,), sub_elements=[scalar], embedded_superdegree=1)
+            cel = Node("_BlockedElement", reference_value_shape=(3,), sub_elements=[scalar], embedded_superdegree=1, dim=3 * nverts, block_size=3, reference_value_size=3)
             mesh = Node("Mesh", ufl_cell=_PyCall(lambda _c=c: Node("Cell", cellname=_c)), geometric_dimension=3, ufl_coordinate_element=_PyCall(lambda _e=cel: _e),
                         ufl_id=_PyCall(lambda: 777))
             nf = _nfacets(c)
